@@ -107,6 +107,15 @@ func genConfig(r *rand.Rand) config {
 	if r.Intn(4) == 0 {
 		cfg.Entries = []string{"./a", "./b/nested"}
 	}
+	switch r.Intn(8) {
+	case 0:
+		// a wildcard pattern: every package of the main module is a direct entrypoint (testdata, _sibling and the nested
+		// module are not matched by it)
+		cfg.Entries = []string{"./..."}
+	case 1:
+		// import paths instead of directories
+		cfg.Entries = []string{mod + "/a", mod + "/c"}
+	}
 	return cfg
 }
 
@@ -216,6 +225,16 @@ func processedPkgs(cfg config, ps []layout.Pkg) map[string]bool {
 		}
 	}
 	for _, e := range cfg.Entries {
+		if e == "./..." {
+			for _, p := range ps {
+				visit(p.Path(mod))
+			}
+			continue
+		}
+		if strings.HasPrefix(e, mod) {
+			visit(e)
+			continue
+		}
 		d := strings.TrimPrefix(e, "./")
 		if d == "." || d == "" {
 			visit(mod)
@@ -413,6 +432,14 @@ func (p *prop) runConfig(c core.Case, w *core.Worker, res *core.Result, cfg conf
 		runDir = filepath.Join(m.Root, cfg.Cwd)
 		var rel []string
 		for _, e := range cfg.Entries {
+			if strings.HasPrefix(e, mod) {
+				rel = append(rel, e) // an import path means the same from every directory of the module
+				continue
+			}
+			if e == "./..." {
+				rel = append(rel, "../...")
+				continue
+			}
 			r, err := filepath.Rel(cfg.Cwd, strings.TrimPrefix(e, "./"))
 			if err != nil {
 				r = e
@@ -486,6 +513,12 @@ func (p *prop) runConfig(c core.Case, w *core.Worker, res *core.Result, cfg conf
 		return
 	}
 	res.Inc("gengo_runs")
+	switch {
+	case cfg.Entries[0] == "./...":
+		res.Inc("runs_with_wildcard_entrypoint")
+	case strings.HasPrefix(cfg.Entries[0], mod):
+		res.Inc("runs_with_import_path_entrypoints")
+	}
 	after := m.Snapshot()
 	fails := judge(cfg, ps, before, after, m, run)
 	for _, f := range fails {
